@@ -62,7 +62,7 @@ SEARCH_RULE = ("enumerated: every connect sequence (insertion order matters) on 
                "(sparse, dense, DAG, ring, disconnected, self-loops, parallel edges). One case = one graph with all its requests; a request is "
                "non-trivial if it runs a traversal. distinct_nontrivial = number of graph cases. Every generator also produces: builder reuse "
                "(several searches on one builder object, retargeting, graph changes between two calls), the builder's configuration calls in every "
-               "order (kind~n, before or after the closure is attached, conflicting priority calls), root handles obtained in different ways (#via), "
+               "order (kind~n, before or after the closure is attached, conflicting priority calls, transpose() called twice, a first target that is overwritten), closures that start traversals of their own or ask questions while the outer traversal runs (read-only scripts), root handles obtained in different ways (#via), "
                "graphs of 900-1400 nodes, closed chains of 1100-1600 nodes, hubs of degree up to 90, the extremes of the value types, and the "
                "searches/orderings on the w* (colliding key hashes) and z* (zero-sized values) flavours.")
 
@@ -106,7 +106,9 @@ CONT_RULE = ("enumerated small inputs (all digraphs on <=3/4 nodes for scc; all 
              "one graph/document/history; distinct_nontrivial = number of cases. Also: scc across graph changes on one container and on "
              "containers of 1100-1700 nodes; serialisation after container histories and of documents with 257-1030 edge records; raw JSON and "
              "CBOR bytes (every single-edit class) compared exactly with the byte-level models; deserialize_in_place into populated graphs; long "
-             "runs of one source; two containers sharing nodes; containers as sole owners of connected nodes; the w* and z* flavours.")
+             "runs of one source; documents of the container with text keys (Graph<String, i64, u32>: empty, long, non-ASCII keys; judged by the "
+             "statement alone, not modelled); two containers sharing nodes, one of them dropped; containers as sole owners of connected nodes; "
+             "the w* and z* flavours.")
 _CONT = {
  "C11": ([("GdslModel.Props.C11", "G.Scc." + t) for t in ["partition", "sound", "complete", "order_independent", "fuel_enough"]],
          "Machine-checked proof (Lean 4) of Kosaraju's algorithm as implemented (first pass: postorder forest threaded through the visited filter in hash-map order; second pass: transposed preorder among unassigned nodes in decreasing finishing position): for every iteration order of a closed container the result is a partition of the members, two nodes share a component exactly when each reaches the other, and as a set of sets it does not depend on the order - via the component-root lemma on the non-deterministic DFS relation. Tied to digraph/sync_digraph by exact correspondence under the annotated hash order (all digraphs on <=3 (quick) / <=4 (thorough) nodes x 4 container instances and insertion orders, random to 30 nodes) and a mutual-reachability partition oracle on the real output.",
@@ -138,7 +140,7 @@ PROPS["C16"] = {"theorems": [("GdslModel.Props.C16", "G.Traits." + t) for t in [
     "design_ref": "DESIGN.md section 7, C16"}
 
 PROPS["C19"] = {"theorems": [("GdslModel.Props.C19", "G.Own." + t) for t in ["inv_step", "inv_run", "released_once", "no_premature_release", "all_released_at_end", "edges_do_not_own", "held_alive"]], "oracles": ["c19"],
-    "rule": "seeded histories over the four flavours with drop-counting node values: build/use phase (nodes, clones, containers, edges, bfs/dfs paths and cycles, search results, pre/postorderings, found neighbours held in slots; connect, try_connect (accepted and refused), disconnect, isolate, queries from both ends; unconnected nodes come and go; duplicate-key inserts), hand-off phase (the original handles are dropped first, so results/containers/clones alone keep nodes alive), tear-down in random order; after every request the set of released values is compared with the model and with the handles actually held. distinct_nontrivial = number of histories.",
+    "rule": "seeded histories over the four flavours with drop-counting node values: build/use phase (nodes, clones, containers, edges, bfs/dfs paths and cycles, search results, pre/postorderings, found neighbours held in slots; connect, try_connect (accepted and refused), disconnect, isolate, queries from both ends; unconnected nodes come and go; duplicate-key inserts, a second container sharing members), traversals whose closure takes a member out of the container that is its only owner, isolates it and drops it (own.walk), hand-off phase (the original handles are dropped first, so results/containers/clones alone keep nodes alive), tear-down in random order; after every request the set of released values is compared with the model and with the handles actually held. distinct_nontrivial = number of histories.",
     "exhaustive": False,
     "level_text": "Machine-checked proof (Lean 4) about the ownership-accounting model (strong handles held by program slots: node handles, edges, paths, search results, containers; adjacency entries weak): after every history a node value is released exactly when no slot mentions its key - at most once, never while a handle is held, always once the last handle is gone - for any graph shape (cycles, self-loops, still-connected nodes) and drop order; results of traversals (bfs/dfs paths and cycles, searches, pre/postorder, find_*) only ever hold alive nodes (uses the BFS/DFS/ordering soundness theorems); connect, try_connect, disconnect, isolate and every query create and drop no handle, whatever they do to the adjacency lists (the theorems quantify over an arbitrary effect function mutF). That Rc/Arc/Weak implement this accounting is trusted std semantics; the tie to the four flavours is the correspondence with drop-counting node values (released sets compared after every request of seeded histories with build, hand-off and tear-down phases) and a direct oracle on the handles actually held.",
     "level_note": CORR_NOTE, "technique": "Lean 4 invariant proof over the ownership-accounting model + model/implementation correspondence with drop-counting payloads + held-handle oracle", "design_ref": "DESIGN.md section 7, C19"}
@@ -161,7 +163,7 @@ PROPS["C15"] = {"theorems": [("GdslModel.Props.C15", "G.Sync." + t) for t in ["d
     "design_ref": "DESIGN.md section 7, C15"}
 
 PROPS["C20"] = {"theorems": [("GdslModel.Props.C20", "G.Live." + t) for t in ["iter_yield_exists", "search_yield_exists", "order_yield_exists", "iter_terminates", "search_eq_static", "order_eq_static", "sync_iter_holds_nothing"]], "oracles": ["c20", "mirror"],
-    "rule": "one case = a fresh small graph (all nodes also in a container), one loop (edge iterator out/in/adj; bfs, dfs, pfs-min, pfs-max, preorder, postorder; plain and transposed) whose body / closure runs a script: one operation (connect, try_connect, disconnect, isolate, is_connected, nested bfs, container insert/remove) at one step of the loop - every combination on 2-node graphs (every 6th in the quick tier), scripts that add edges for a bounded number of steps, and random scripts on graphs up to 7 nodes; all four flavours with the lock hook on. distinct_nontrivial = number of cases.",
+    "rule": "one case = a fresh small graph (all nodes also in a container), one loop (edge iterator out/in/adj; bfs, dfs, pfs-min, pfs-max, preorder, postorder; plain and transposed) whose body / closure runs a script: one operation (connect, try_connect, disconnect, isolate, is_connected, nested bfs, container insert/remove) at one step of the loop - every combination on 2-node graphs (every 6th in the quick tier), scripts that add edges for a bounded number of steps, and random scripts on graphs up to 7 nodes; rewiring closures on 3-node graphs; ownership histories in which a traversal's closure takes a member out of the container that is its only owner, isolates it and drops it; all four flavours with the lock hook on. distinct_nontrivial = number of cases.",
     "exhaustive": False,
     "level_text": "Machine-checked proof (Lean 4) about the live-loop model (iterators keep only a position and re-read the live list on every step; traversal loops thread an arbitrary program state through every call of the closure, which may connect, disconnect, isolate, touch containers or run nested searches): every edge handed out by an iterator or to a traversal closure is an entry of its source's list in the state at that moment; an edge loop ends within len - pos + 1 steps once the body stops lengthening the list; a closure that does not touch the graph sees exactly the static traversal of C04-C10 (simulation); an iterator step of the sync flavours returns holding no lock, so the closure can take any lock (no self-deadlock), and the plain model has no borrow state between steps. Traversals under mutation terminate as well: with a finite node universe, once the closure stops lengthening lists every search and ordering ends within an explicit fuel bound (search_terminates, *_terminates_from, *_terminates_eventually). Tied to the four flavours by exact correspondence of yielded edges, script results and final graphs: every (graph, loop kind, root, step, operation) combination on 2-node graphs (sampled in quick), bounded edge-adding scripts, random scripts; an oracle re-checks on the real lists that each yielded edge exists when yielded; panics and re-entrant lock requests (lock hook) are failures.",
     "level_note": CORR_NOTE + " Runtime behaviour outside the model: user Clone/Drop/Display impls of payloads that themselves touch the graph while a guard is alive.",
